@@ -237,10 +237,11 @@ func (e *Engine) implTerm(tag *Term, iface types.Type) *Term {
 		id := int(tag.Int.Int64())
 		if id >= 1 && id <= len(tags.types) {
 			t := tags.types[id-1]
-			if _, pseudo := t.(*pseudoType); !pseudo {
+			if pt, pseudo := t.(*pseudoType); !pseudo {
 				return BoolLit(types.Implements(t, iface.Underlying().(*types.Interface)))
+			} else {
+				return BoolLit(pseudoImplements(pt, iface))
 			}
-			return False
 		}
 		return False
 	}
@@ -257,6 +258,17 @@ func (p *pseudoType) Underlying() types.Type { return p }
 func (p *pseudoType) String() string         { return p.name }
 
 var pseudoTypes = map[string]*pseudoType{}
+
+// pseudoImplements: opaque error types implement error; opaque context types implement context.Context.
+func pseudoImplements(p *pseudoType, iface types.Type) bool {
+	name := typeStr(iface)
+	switch {
+	case strings.HasPrefix(p.name, "opaque:context."):
+		return name == "context.Context"
+	default:
+		return name == "error"
+	}
+}
 
 func pseudo(name string) types.Type {
 	if p, ok := pseudoTypes[name]; ok {
